@@ -107,6 +107,10 @@ func c08cli(c *h.Ctx) {
 		argv += " \"$(pwd)\""
 		cmd := fmt.Sprintf("printf '%s\\n'%s >> '%s'", format, argv, trace)
 		tdef := gen.OM{{K: "command", V: []interface{}{cmd}}, {K: "env", V: taskEnv}, {K: "variables", V: taskVars}}
+		namedCtx := r.Chance(40) // the shared task runs in a named execution context (one object for all runs)
+		if namedCtx {
+			tdef.Set("context", "cx")
+		}
 		if taskDir != "" {
 			tdef.Set("dir", taskDir)
 		}
@@ -132,6 +136,9 @@ func c08cli(c *h.Ctx) {
 			return l
 		}
 		cfg := gen.OM{{K: "tasks", V: gen.OM{{K: "shared", V: tdef}}}, {K: "pipelines", V: gen.OM{{K: "p", V: stages(p1)}, {K: "q", V: stages(p2)}}}}
+		if namedCtx {
+			cfg = append(gen.OM{{K: "contexts", V: gen.OM{{K: "cx", V: gen.OM{{K: "env", V: gen.OM{{K: "FROMCTX", V: "1"}}}, {K: "before", V: []interface{}{"true"}}}}}}}, cfg...)
+		}
 		h.WriteFile(dir+"/tasks.yaml", gen.YAML(cfg))
 		res := tc{Dir: real}.run(c, "-o", "raw", "p", "q", "shared")
 		c.Eval(1)
